@@ -970,6 +970,37 @@ def check_c01(res, ctx, be=False, label="c01"):
             variant="be" if be else "asan", margs=("--be",) if be else (),
             rule="random tables through the public API: 0..4 columns, 0..3 slices, row counts incl. 0/1/7..9/255..257/511..513/600, all 12 types, strings crossing 127/128 and 16383/16384 with embedded NULs, NaN payloads, ±0, every encoding per column and property, shared/sparse column metadata, ~8% with conflicting column metadata (error branch)",
             nontrivial=lambda l: len(l) > 200)
+    # what the writer cannot represent: a slice that has fewer or more column slices than the table
+    # metadata has columns could not be read back, so sbdf_ts_write has to refuse it (defect F26)
+    r = ctx.rng
+    ml = []
+    where = {}
+    for _ in range(150 if ctx.tier == "quick" else 3000):
+        t = gen.rtable(r, consistent=True, maxslices=3, small=True)
+        if not t.slices:
+            continue
+        j = r.randrange(len(t.slices))
+        sl = t.slices[j]
+        if sl and r.random() < 0.5:
+            sl.pop(r.randrange(len(sl)))
+        else:
+            extra = sl[r.randrange(len(sl))] if sl else ((1, ref.Obj(2, [b"\1\0\0\0"])), [])
+            for _ in range(r.choice([1, 1, 2])):
+                sl.append(extra)
+        l = "rt " + t.script()
+        ml.append(l)
+        where[l] = j
+
+    def oracle_mismatch(l, h):
+        j = where[l]
+        if not re.match(r"build=0 fh=0 tm=0 ts=%s-19 bytes=\S+ live=0$" % ("0," * j), h):
+            return "slice %d does not have the column count of the table metadata, but sbdf_ts_write did not refuse it with COLUMN_COUNT_MISMATCH: %s" % (j, re.sub(r"bytes=\S+", "bytes=*", h)[:200])
+        return None
+    compare(res, ctx, ml, label + " slices the writer cannot represent", oracle=oracle_mismatch,
+            project=lambda x: re.sub(r"bytes=\S+", "bytes=*", x),
+            variant="be" if be else "asan", margs=("--be",) if be else (),
+            rule="tables one of whose slices has fewer or more column slices than the table metadata has columns: the write of that slice is refused with COLUMN_COUNT_MISMATCH, the slices before it are written",
+            nontrivial=lambda l: True)
 
 
 def check_c03(res, ctx):
